@@ -89,6 +89,45 @@ def repo_inputs():
             + glob.glob(os.path.join(REPO, "include", "*.h")))
 
 
+def source_literals(root=None):
+    """integer and character literals of the library's own C text (word lists excluded)"""
+    root = root or REPO
+    vals = set()
+    files = [f for f in glob.glob(os.path.join(root, "src", "*.[ch]")) + glob.glob(os.path.join(root, "include", "*.h"))
+             if not os.path.basename(f).startswith("lang_")]
+    for f in files:
+        try:
+            txt = open(f, errors="replace").read()
+        except OSError:
+            continue
+        txt = re.sub(r"/\*.*?\*/", " ", txt, flags=re.S)
+        txt = re.sub(r"//[^\n]*", " ", txt)
+        for m in re.finditer(r"\b(0[xX][0-9a-fA-F]+|\d+)[uUlL]*\b", txt):
+            try:
+                vals.add(int(m.group(1), 0))
+            except ValueError:
+                try:
+                    vals.add(int(m.group(1)))
+                except ValueError:
+                    pass
+        for m in re.finditer(r"'(\\?.)'", txt):
+            c = m.group(1)
+            vals.add(ord(c[-1]))
+        for m in re.finditer(r'"([^"\n]{1,40})"', txt):
+            pass
+    return vals
+
+
+def new_source_literals():
+    """literals present in the working tree and absent from the pinned release (harness/src_literals.json):
+    where a change put a new constant into the code, the generators aim at it"""
+    try:
+        base = set(json.load(open(os.path.join(ROOT, "harness", "src_literals.json"))))
+    except Exception:
+        return []
+    return sorted(v for v in source_literals() if v not in base and v < 2 ** 64)
+
+
 INC = ["-iquote", os.path.join(REPO, "src"), "-I", os.path.join(REPO, "include"),
        "-DPOLYSEED_STATIC", "-D" + GUARD]
 
